@@ -158,6 +158,18 @@ CHECKS["C10"] = {
     "rule": "case = (index: N, stored sizes, dictionary?) x marking x limit. Non-trivial = request with >= 2 ranges in which at least two adjacent missing chunks were merged into one range; enumerated cases are distinct by construction (index, marking, limit), others by choice-sequence hash.",
     "assumptions": ["zero-length chunks are never presented as missing (no scan leaves them so)"],
     "runs": [
-        {"bin": "asan/C10", "cases": P(150, 2500), "procs": P(8, 16), "size": 70, "shrink_budget": 80},
+        {"bin": "asan/C10", "cases": P(400, 4000), "procs": P(8, 16), "size": 70, "shrink_budget": 80},
+    ],
+}
+
+CHECKS["C04"] = {
+    "level": "exploration",
+    "technique": "scenario generation over (A, B, initial target, range limit, server range cap, multipart style, response fragmentation) driving a call-for-call mirror of zckdl's update procedure against an in-process range server; oracle = target == B, data checksum valid, strict progress per round, and set equality between the bytes requested and the reference-computed extents of chunks neither valid in the target nor available in A",
+    "level_text": "Each generated scenario runs the whole documented procedure (header fetch, validity scan, local copy, request rounds with single-range and multipart responses, final validation) through the public API. The requested byte ranges of all rounds are compared, as a multiset of bytes, with an independent computation over the reference-parsed indexes of A and B and the initial target bytes. Sampled scenarios; thorough tier adds the real zckdl binary against a loopback server.",
+    "level_note": "Trusted: reference parser/digests; the in-process server answers exactly the requested bytes (206 single body or multipart/byteranges) and 200 when asked for more ranges than it accepts. Multipart boundaries are alphanumeric here (other boundary strings are C05's subject).",
+    "rule": "case = (B chunk list + config, A derivation, initial target, limit policy, server cap, style, cut style). Non-trivial = at least one chunk reused (from A or the target) AND at least one fetched AND a multipart response used; distinct by choice-sequence hash.",
+    "assumptions": ["server holds B unchanged for the whole update", "A is an intact zchunk file (damaged sources are C08's subject)"],
+    "runs": [
+        {"bin": "asan/C04", "cases": P(600, 20000), "procs": P(8, 16), "size": 70, "shrink_budget": 300, "cpu_limit": 60},
     ],
 }
